@@ -1084,6 +1084,15 @@ def run(ctx, model_ok=True):
     for i in range(300 if quick else 8000):
         case = gen_measure_case(rng)
         check_measure(ctx, rep, case, str(rng.choice(["list", "tuple"])), bool(rng.integers(2)), None if rng.integers(3) else 1e-8)
+    # a state of a narrower dtype than the operators / the result: integer-valued |0><0| measured in the X basis, a real state
+    # measured in the Y basis (complex Kraus operators), a real diagonal state under complex unitary-rotated projectors
+    sq = 1 / np.sqrt(2)
+    xb = [np.array([[.5, .5], [.5, .5]]), np.array([[.5, -.5], [-.5, .5]])]
+    yb = [np.outer(v, v.conj()) for v in (np.array([sq, 1j * sq]), np.array([sq, -1j * sq]))]
+    for rho0 in (np.array([[1, 0], [0, 0]]), np.array([[0.75, 0.25], [0.25, 0.25]])):
+        for ops0 in (xb, yb):
+            for upd in (True, False):
+                check_measure(ctx, rep, (2, rho0.astype(complex), [o.astype(complex) for o in ops0], "projective-mixed-dtype", True), "list", upd, None)
     for i in range(150 if quick else 4000):
         check_is_povm(ctx, rep, rng)
     ctx.extra["tolerances"] = {"generators": TOL_GEN, "trace": TOL_TRACE, "psd": TOL_PSD, "rank_eps": RANK_EPS, "pgm_pbm": TOL_PGM, "measure": TOL_MEAS, "pgm_bound_slack": 1e-4}
